@@ -172,6 +172,7 @@ func (c *Chan[T]) Send(v T) {
 	if c == nil {
 		blockForever(s, "send on nil channel")
 	}
+	chanSync(unsafe.Pointer(c)) // what the sender did before is visible to whoever takes the value
 	if c.trySend(s, v) {
 		s.schedPoint()
 		return
@@ -201,6 +202,7 @@ func (c *Chan[T]) Recv2() (T, bool) {
 	if c == nil {
 		blockForever(s, "receive from nil channel")
 	}
+	chanSync(unsafe.Pointer(c)) // (a receive on an unbuffered channel happens before the send completes)
 	if v, ok, did := c.tryRecv(s); did {
 		s.schedPoint()
 		return v, ok
@@ -277,6 +279,7 @@ func (c *Chan[T]) Cap() int {
 
 // SelCase is one communication clause of a select statement.
 type SelCase interface {
+	sync()
 	try(s *Sim) bool
 	enqueue(st *waitState, idx int)
 	isNil() bool
@@ -301,6 +304,12 @@ func SendCase[T any](c *Chan[T], v T) SelCase { return &sendCase[T]{c, v} }
 
 //go:norace
 func (r *recvCase[T]) isNil() bool { return r.c == nil }
+
+//go:norace
+func (r *recvCase[T]) sync() { chanSync(unsafe.Pointer(r.c)) }
+
+//go:norace
+func (x *sendCase[T]) sync() { chanSync(unsafe.Pointer(x.c)) }
 
 //go:norace
 func (r *recvCase[T]) try(s *Sim) bool {
@@ -343,6 +352,11 @@ func Select(hasDefault bool, cases ...SelCase) int {
 	s := chanEnter("select")
 	// ready cases, probed in a PRNG-chosen rotation so that every ready case can win
 	n := len(cases)
+	for _, c := range cases {
+		if !c.isNil() {
+			c.sync()
+		}
+	}
 	if n > 0 {
 		start := 0
 		if n > 1 {
@@ -380,6 +394,9 @@ func Select(hasDefault bool, cases ...SelCase) int {
 	}
 	if st.closedSend {
 		panic("send on closed channel")
+	}
+	if st.fired >= 0 {
+		cases[st.fired].sync()
 	}
 	return st.fired
 }
